@@ -96,3 +96,42 @@ package cli
 //@   loop 1 invariant e.w == old(e.w) && n >= 0 && l >= 1 && n + len(out(e.w)) == n0 + len(old(out(e.w))) && l <= len(out(e.w)) - len(old(out(e.w)))
 //@   loop 1 invariant out(e.w) == old(out(e.w)) + rep(spaces[0], len(out(e.w)) - len(old(out(e.w))))
 //@   ensures out(e.w) == old(out(e.w)) + rep(spaces[0], n)
+
+// C10/C12: numbers on the command's output. write() brackets the bytes with the colour's SGR sequence
+// and the reset sequence (nothing when colours are off); encodeFloat64 writes jsonFloat(f) in between.
+// (jsonFloat is defined with the library encoder's contract in ../contracts_verif.go)
+
+//@ func setColor(buf *bytes.Buffer, color []byte)
+//@   property C12
+//@   requires buf != nil
+//@   modifies out(buf)
+//@   ensures out(buf) == old(out(buf)) + (global(noColor) ? "" : bytestr(color))
+
+//@ func (e *encoder) write(bs, color []byte)
+//@   property C12
+//@   requires e.w != nil
+//@   modifies out(e.w)
+//@   ensures (color == nil || global(noColor)) ==> out(e.w) == old(out(e.w)) + bytestr(bs)
+//@   ensures (color != nil && !global(noColor)) ==> out(e.w) == old(out(e.w)) + bytestr(color) + bytestr(bs) + bytestr(global(resetColor))
+
+//@ func (e *encoder) encodeFloat64(f float64)
+//@   property C10 C12
+//@   requires e.w != nil
+//@   modifies out(e.w), e.buf
+//@   ensures !isNaN(f) && (global(numberColor) == nil || global(noColor)) ==> out(e.w) == old(out(e.w)) + jsonFloat(f)
+//@   ensures !isNaN(f) && (global(numberColor) != nil && !global(noColor)) ==> out(e.w) == old(out(e.w)) + bytestr(global(numberColor)) + jsonFloat(f) + bytestr(global(resetColor))
+//@   ensures isNaN(f) && (global(nullColor) == nil || global(noColor)) ==> out(e.w) == old(out(e.w)) + "null"
+//@   ensures isNaN(f) && (global(nullColor) != nil && !global(noColor)) ==> out(e.w) == old(out(e.w)) + bytestr(global(nullColor)) + "null" + bytestr(global(resetColor))
+
+// C12: strings on the command's output: the same escaped text as the library encoder writes (escFrom is
+// defined in ../contracts_verif.go), bracketed by the colour sequences when a colour is given.
+//@ func (e *encoder) encodeString(s string, color []byte)
+//@   property C12
+//@   requires e.w != nil
+//@   modifies out(e.w)
+//@   loop 1 use esc_step(s, i)
+//@   loop 1 invariant e.w == old(e.w) && 0 <= start && start <= i && i <= len(s)
+//@   loop 1 invariant out(e.w) + s[start:i] + escFrom(s, i) == old(out(e.w)) + ((color == nil || global(noColor)) ? "" : bytestr(color)) + "\"" + escFrom(s, 0)
+//@   ensures color == nil ==> out(e.w) == old(out(e.w)) + "\"" + escFrom(s, 0) + "\""
+//@   ensures color != nil && global(noColor) ==> out(e.w) == old(out(e.w)) + "\"" + escFrom(s, 0) + "\""
+//@   ensures color != nil && !global(noColor) ==> out(e.w) == old(out(e.w)) + bytestr(color) + "\"" + escFrom(s, 0) + "\"" + bytestr(global(resetColor))
